@@ -14,12 +14,17 @@ Proved (all states, all query points, no bound):
   an outside answer excludes a face answer when the hull is convex.  Hence the class/element
   reported is independent of the hint, the hint generator and earlier queries as soon as each
   answer is sound.
-`C09_partial`: soundness of the walk itself (every value `locate_with_hint_fixed_core` can return
-satisfies `LocateAnswerOK`) is proved for the model in `Spade/Algo/Locate.lean` where available;
-totality of the walk (it ends before its loop counter) is not proved.
+* **soundness of the walk for every hint** (`C09_locate_sound`): the code-mirroring model of
+  `locate_with_hint_fixed_core` (`St.locateM`, `Spade/Algo/Locate.lean`; compared per run with the
+  implementation's answers element for element — clause `C09:model`) can only return answers that
+  satisfy `LocateAnswerOK`, for every state with consistent links and counter-clockwise faces,
+  every query point, every hint (valid, stale, out of range) and every loop budget.
+`C09_partial`: totality of the walk (it ends before its loop counter) is not proved; the collinear
+case (`locate_when_all_vertices_on_line`) is judged per run only.
 -/
 import Spade.Query
 import Spade.Properties.C02
+import Spade.Proofs.LocateSound
 namespace Spade
 
 theorem C09_check_iff (s : St) (q : Pt) (r : LocRes) :
@@ -88,6 +93,24 @@ theorem C09_face_excludes_outside (s : St) (hconv : s.HullConvex) (hl : s.LinksO
     rw [eB, eC] at h2
     rw [orient_self_left] at h2
     omega
+
+/-- **Whatever the locate model answers is geometrically true — for every hint.** -/
+theorem C09_locate_sound (s : St) (hl : s.LinksOK) (ha : s.AnchorsOK) (hc : s.CcwAllEdges)
+    (ht : s.FaceTriples) (q : Pt) (hint : Nat) (r : LocRes) (h : s.locateM q hint = some r) :
+    s.LocateAnswerOK q r := s.locateM_sound hl ha hc ht q hint r h
+
+/-- one step of the walk: continuation keeps the invariant, result is true -/
+theorem C09_step_sound (s : St) (hl : s.LinksOK) (hc : s.CcwAllEdges) (ht : s.FaceTriples) (q : Pt)
+    (e0 : Nat) (rot : Bool) (hinv : s.LocInv q e0 rot) :
+    (∀ e0' rot', s.locStep q e0 rot = .cont e0' rot' → s.LocInv q e0' rot') ∧
+    (∀ r, s.locStep q e0 rot = .done r → s.LocateAnswerOK q r) :=
+  s.locStep_sound hl hc ht q e0 rot hinv
+
+/-- non-vacuity: the hypotheses hold for a state dumped from the implementation, and the model
+answers (with a valid, a stale and an out-of-range hint) are produced and sound -/
+example : exFive.LinksOK ∧ exFive.AnchorsOK ∧ exFive.CcwAllEdges ∧ exFive.FaceTriples ∧
+    exFive.locateM ⟨1, 1⟩ 0 = some (.onEdge 5) ∧ exFive.locateM ⟨1, 1⟩ 4 = some (.onEdge 5) ∧
+    exFive.locateM ⟨5, 5⟩ 1000 = some (.outside 3) := by decide
 
 example : exFive.LocateAnswerOK ⟨1, 1⟩ (.onEdge 4) ∧ exFive.LocateAnswerOK ⟨5, 5⟩ (.outside 11) ∧
     exFive.LocateAnswerOK ⟨1, 3⟩ (.onVertex 4) := by decide
